@@ -222,8 +222,9 @@ def number(ctx, terminator=never):
     if "$" in num or "_" in num or "." in num:
         raise reports.RecoverableError("Local label, not a number")
 
-    # Does the number only include decimal digits?
-    if num.isdigit():
+    # Does the number only include decimal digits? (str.isdigit() alone also accepts
+    # digits of other scripts, which are not numbers here)
+    if num.isascii() and num.isdigit():
         if has_dot:
             # Decimal
             return types.Number(ctx_start, ctx, f"{sign_str}{num}.", int(num, 10) * sign, is_valid_label=False)
